@@ -66,7 +66,7 @@ func c17(tier string) int {
 	corp := corpus(thorough)
 	inCorpus := map[string]bool{}
 	for _, p := range corp {
-		p.Name = "corpus_" + p.Name
+		// the name is kept: it is also the module path the program's own imports use
 		inCorpus[p.Name] = true
 		progs = append(progs, p)
 	}
